@@ -68,14 +68,14 @@ class Ctx:
         if rc != 0:
             # a unit that cannot be translated breaks the tie of the properties whose theorems range over it:
             # the capacity decisions of the vector types (C07, C08), the position arithmetic of allocator_impl.rs
-            # (C01, C02, C13); bumping.rs / size_config.rs / lib.rs underlie everything
+            # (C01, C02, C13) and chunk growth (C10, C12); bumping.rs / size_config.rs / lib.rs underlie everything
             bad = [l for l in out.split('\n') if 'FAILED' in l or 'unsupported' in l]
             scope = set()
             for l in bad:
                 if 'capsites' in l.lower():
                     scope |= {'C07', 'C08'}
                 elif 'allocsites' in l.lower():
-                    scope |= {'C01', 'C02', 'C13'}
+                    scope |= {'C01', 'C02', 'C13', 'C10', 'C12'}
                 else:
                     scope = None
                     break
